@@ -168,6 +168,35 @@ def gbParentX (db : XDb) (name : String) (exclude : Option String) (start stop :
   let c := familyCandidates db name none
   if c.all (·.located) then .ok (c.filter (familyKeep parentSkip exclude start stop)) else .error .typeError
 
+/-! ### `SqliteAnnotationDbMixin.get_feature_children` (GffAnnotationDb, BasicAnnotationDb) -/
+
+/-- a stored row together with its `parent_id` column (GFF `Parent=`, `add_feature(parent_id=…)`) -/
+structure PRec where
+  x : XRec
+  parent : Option String
+  deriving DecidableEq, Repr, Inhabited
+
+/-- `get_feature_children(name, biotype, **kwargs)` of the mixin: every table in `table_names` order (`rows` = their
+rows in that order) is asked for `parent_id LIKE '%name%'` and, when given, the biotype atom; `_select_records_sql`
+drops the `start` / `stop` / `allow_partial` it is handed, so a window changes nothing; then the feature dict is
+built from `result["spans"]` (TypeError on a NULL blob); `childSel` = the selected rows -/
+def btCond (biotype : Option String) (r : Rec) : Bool :=
+  match biotype with
+  | none => true
+  | some b => colCond (.one b) r.biotype
+
+/-- the column called `c` of a stored row -/
+def PRec.col (r : PRec) (c : String) : Option String :=
+  if c = "parent_id" then r.parent else if c = "name" then r.x.row.name else if c = "biotype" then r.x.row.biotype
+  else if c = "seqid" then r.x.row.seqid else if c = "strand" then r.x.row.strand else none
+
+/-- which column is compared with which pattern is generated (`mixinChildColumn`, `mixinChildPattern`) -/
+def childSel (rows : List PRec) (name : String) (biotype : Option String) : List PRec :=
+  rows.filter fun r => colCond (.one (mixinChildPattern name)) (r.col mixinChildColumn) && btCond biotype r.x.row
+
+def mixinChildren (rows : List PRec) (name : String) (biotype : Option String) : Except Err (List PRec) :=
+  if (childSel rows name biotype).all (·.x.located) then .ok (childSel rows name biotype) else .error .typeError
+
 /-! ### `to_rich_dict` / `from_dict` on rows that may lack a location (as repaired by 26f741b86) -/
 
 /-- one row of `to_rich_dict`: the NON-NULL columns; `spans` is converted to a list only `if "spans" in store`
